@@ -8,6 +8,10 @@
 //!     searcher's exhaustive (doc, key) list from a non-pruning collector, ordered by the model's
 //!     `topK` spec. Exact equality for exactly comparable keys; a tolerance only for scores that
 //!     are float sums over several clauses. Paging enumerates every match once.
+//! (C) the three pruning drivers through `Weight::for_each_pruning` under threshold-raising callback
+//!     policies vs the exhaustive loop and, bit for bit, vs the Lean mirrors of the loops.
+//! (D) keys outside the model (NaN sort keys; scores not above the `Score::MIN` sentinel; negative
+//!     boosts): no panic, size, no duplicates, true keys — the order with NaN keys is only reported.
 //! Known findings are attributed only when the named bound hypothesis is verified to fail on the
 //! searcher at hand (recomputed through the public postings API).
 use crate::model::nat_list;
@@ -1444,6 +1448,68 @@ fn model_wand_single(ctx: &mut Ctx, searcher: &Searcher, reader: &SegmentReader,
     Some(ctx.model.ask(&format!("C06 wand1 {pol} {arg} {} {}", score_key(initial), if blocks.is_empty() { "-".to_string() } else { blocks.join(";") })))
 }
 
+/// one term scorer as the mirrored loops (Model/BlockWand.lean) see it:
+/// `max;tailMax;tailLoaded;cost;last:bm,…;doc@score,…` with floats as bit patterns
+fn scorer_line(searcher: &Searcher, reader: &SegmentReader, fields: &Fields, t: &str) -> Option<(String, usize)> {
+    let (field, term) = term_of(fields, t);
+    if field == fields.basic {
+        return None;
+    }
+    let w = Bm25Weight::for_terms(searcher, &[term.clone()]).ok()?;
+    let inv = reader.inverted_index(field).ok()?;
+    let fnr = reader.get_fieldnorms_reader(field).ok()?;
+    let mut bp = inv.read_block_postings(&term, IndexRecordOption::WithFreqs).ok()??;
+    let doc_freq = bp.doc_freq() as usize;
+    let mut blocks: Vec<String> = vec![];
+    let mut posts: Vec<String> = vec![];
+    let mut tail_max = 0f32;
+    loop {
+        let docs = bp.docs().to_vec();
+        if docs.is_empty() {
+            break;
+        }
+        let freqs = bp.freqs().to_vec();
+        let full = docs.len() == 128;
+        if full {
+            blocks.push(format!("{}:{}", docs[127], bp.block_max_score(&fnr, &w).to_bits()));
+        }
+        for (d, f) in docs.iter().zip(freqs.iter()) {
+            let sc = w.score(fnr.fieldnorm_id(*d), *f);
+            posts.push(format!("{d}@{}", sc.to_bits()));
+            if !full && sc > tail_max {
+                tail_max = sc;
+            }
+        }
+        bp.advance();
+    }
+    if posts.is_empty() {
+        return None;
+    }
+    let line = format!("{};{};{};{};{};{}", w.max_score().to_bits(), tail_max.to_bits(), if doc_freq < 128 { 1 } else { 0 }, doc_freq,
+        if blocks.is_empty() { "-".to_string() } else { blocks.join(",") }, posts.join(","));
+    Some((line, doc_freq))
+}
+
+/// ask the mirrored multi-scorer loop (`bwand` / `binter`) for its callback sequence
+fn model_multi(ctx: &mut Ctx, op: &str, searcher: &Searcher, reader: &SegmentReader, fields: &Fields, terms: &[String], policy: &Policy, initial: f32) -> Option<String> {
+    let mut lines = vec![];
+    let mut total = 0;
+    for t in terms {
+        match scorer_line(searcher, reader, fields, t) {
+            Some((l, n)) => { lines.push(l); total += n; }
+            None => {
+                // a term absent from the segment: EmptyScorer — a union drops it, a conjunction is empty
+                if op == "binter" || term_of(fields, t).0 == fields.basic { return None; }
+            }
+        }
+    }
+    if lines.len() < 2 || total > 12_000 {
+        return None;
+    }
+    let (pol, arg) = match policy { Policy::Const(b) => ("const", *b as u64), Policy::Staircase => ("stair", 0), Policy::KthBest(k) => ("kth", *k as u64) };
+    Some(ctx.model.ask(&format!("C06 {op} {pol} {arg} {} {}", initial.to_bits(), lines.join("/"))))
+}
+
 fn driver_case(ctx: &mut Ctx, spec: &CorpusSpec, built: &Built, searcher: &Searcher, q: &Q, policy: &Policy, initial: f32) {
     use tantivy::query::EnableScoring;
     let query = q.build(&built.fields);
@@ -1489,7 +1555,31 @@ fn driver_case(ctx: &mut Ctx, spec: &CorpusSpec, built: &Built, searcher: &Searc
                 }
             }
         }
-        if got != expected {
+        // correspondence with the mirrored loop of block_wand (Model/BlockWand.lean), bit for bit:
+        // same documents offered with the same score bits — also where the bounds fail
+        let mirrored = match q { Q::Union(ts) => Some(("bwand", "block_wand", "C06:block-wand-mirrored-loop-mismatch", "block-wand-vs-mirrored-loop", ts)), Q::Inter(ts) => Some(("binter", "block_wand_intersection", "C06:block-wand-intersection-mirrored-loop-mismatch", "block-wand-intersection-vs-mirrored-loop", ts)), _ => None };
+        if let Some((op, name, key, counter, ts)) = mirrored {
+            if let Some(resp) = model_multi(ctx, op, searcher, reader, &built.fields, ts, policy, initial) {
+                ctx.report.count(counter);
+                let real_calls: String = if got.is_empty() { "-".into() } else { got.iter().map(|(d, s)| format!("{d}@{s}")).collect::<Vec<_>>().join(",") };
+                let model_calls = resp.split('|').nth(1).unwrap_or("?").to_string();
+                if !resp.starts_with("ok|") || model_calls != real_calls {
+                    let (ubmax, ubblock) = ub_check(searcher, &built.fields, ts);
+                    let ub_fails = ubmax.is_some() || ubblock.is_some();
+                    ctx.report.count(&format!("{counter}:{}", if ub_fails { "mismatch-where-a-bound-fails" } else { "mismatch" }));
+                    let rc: Vec<&str> = real_calls.split(',').collect();
+                    let mc: Vec<&str> = model_calls.split(',').collect();
+                    let p = (0..rc.len().max(mc.len())).find(|i| rc.get(*i) != mc.get(*i)).unwrap_or(0);
+                    ctx.report.violation("model", key, format!("{} on segment {ord}, policy {policy:?}, initial {initial:?}: {name} offers {:?} at call {p}, the mirrored loop {:?} ({} vs {} calls; outcome {}; a bound hypothesis fails here: {ub_fails})", q.to_json(), rc.get(p), mc.get(p), rc.len(), mc.len(), resp.split('|').next().unwrap_or("")), case.clone());
+                } else if got.len() < all.len() {
+                    ctx.report.count(&format!("{counter}:pruned"));
+                }
+            }
+        }
+        // (three and more clauses: the two paths add the clause scores in different orders, so the
+        //  exact comparison with the exhaustive loop is left to `driver_case_multi`)
+        // (conjunctions: the rounded `threshold - Σ block_max` of the candidate filter, see driver_run)
+        if q.clauses() <= 2 && !matches!(q, Q::Inter(_)) && got != expected {
             let p = (0..got.len().max(expected.len())).find(|i| got.get(*i) != expected.get(*i)).unwrap_or(0);
             let mut key = "C06:pruning-driver-differs-from-exhaustive".to_string();
             let mut extra = String::new();
@@ -1577,6 +1667,221 @@ fn driver_case_multi(ctx: &mut Ctx, spec: &CorpusSpec, built: &Built, searcher: 
     }
 }
 
+// ---------------------------------------------------------------------------------------------
+// (D) keys OUTSIDE the model: NaN sort keys, scores not above the `Score::MIN` sentinel
+// ---------------------------------------------------------------------------------------------
+// The theorems assume the comparator is a strict weak order. `NaturalComparator` compares with
+// `partial_cmp(..).unwrap_or(Equal)`: a NaN key is "equal" to every key, which is not transitive,
+// so nothing is claimed about the ORDER of a result that contains NaN keys. What is still checked:
+// no panic, the result size, no duplicate, every entry a real match carrying its own key.
+// Whether comparable documents get lost behind a NaN threshold is REPORTED (counters, a note).
+
+#[derive(Clone)]
+struct NanKey {
+    m: u64,
+    r: u64,
+}
+struct NanKeySeg {
+    col: Column<u64>,
+    m: u64,
+    r: u64,
+}
+fn nan_key_f64(id: u64, m: u64, r: u64) -> f64 {
+    if id % m == r { f64::NAN } else { (id % 17) as f64 }
+}
+fn nan_key_f32(id: u64, m: u64, r: u64, score: Score) -> f32 {
+    if id % m == r { f32::NAN } else { tweak_floor(score) }
+}
+impl SortKeyComputer for NanKey {
+    type SortKey = f64;
+    type Child = NanKeySeg;
+    type Comparator = NaturalComparator;
+    fn segment_sort_key_computer(&self, r: &SegmentReader) -> tantivy::Result<NanKeySeg> {
+        Ok(NanKeySeg { col: r.fast_fields().u64("id")?, m: self.m, r: self.r })
+    }
+}
+impl SegmentSortKeyComputer for NanKeySeg {
+    type SortKey = f64;
+    type SegmentSortKey = f64;
+    type SegmentComparator = NaturalComparator;
+    fn segment_sort_key(&mut self, doc: DocId, _score: Score) -> f64 {
+        nan_key_f64(self.col.first(doc).unwrap_or(0), self.m, self.r)
+    }
+    fn convert_segment_sort_key(&self, k: f64) -> f64 {
+        k
+    }
+}
+
+/// where the last panic came from: the innermost `tantivy::` frames of its backtrace
+static LAST_PANIC_SITE: std::sync::Mutex<String> = std::sync::Mutex::new(String::new());
+fn capture_panic_sites(on: bool) {
+    if on {
+        std::panic::set_hook(Box::new(|_| {
+            let bt = std::backtrace::Backtrace::force_capture().to_string();
+            let frames: Vec<&str> = bt.lines().map(|l| l.trim()).filter(|l| l.contains("tantivy::") && !l.contains("tvh::")).take(3).collect();
+            let short: Vec<String> = frames.iter().map(|f| f.splitn(2, ": ").nth(1).unwrap_or(f).to_string()).collect();
+            if let Ok(mut g) = LAST_PANIC_SITE.lock() { *g = short.join(" <- "); }
+        }));
+    } else {
+        std::panic::set_hook(Box::new(|_| {}));
+    }
+}
+
+/// variant 0: `tweak_score` to f32; 1: custom f64 key, descending; 2: custom f64 key, ascending
+fn nan_case(ctx: &mut Ctx, spec: &CorpusSpec, built: &Built, searcher: &Searcher, threads: usize, qe: &QueryEval, variant: u64, m: u64, r: u64, k: usize, o: usize) {
+    let case = json!({"kind": "nan", "corpus": spec.to_json(), "query": qe.q.to_json(), "variant": variant, "m": m, "r": r, "k": k, "offset": o, "threads": threads, "segment_order": segment_order(searcher)});
+    let _ = built;
+    let ids: Vec<Column<u64>> = searcher.segment_readers().iter().map(|r| r.fast_fields().u64("id").unwrap()).collect();
+    // true key of every match, as f64 (f32 keys widened: exact)
+    let truth: std::collections::HashMap<u64, f64> = qe.hits.iter().map(|(s, d, sc)| {
+        let id = ids[*s as usize].first(*d).unwrap_or(0);
+        let key = if variant == 0 { nan_key_f32(id, m, r, *sc) as f64 } else { nan_key_f64(id, m, r) };
+        (((*s as u64) << 32) | *d as u64, key)
+    }).collect();
+    let n_nan = truth.values().filter(|x| x.is_nan()).count();
+    ctx.report.count(&format!("nan-keys:variant-{variant}"));
+    ctx.report.case(&format!("nan|{}|{}|{variant}|{m}|{r}|{k}|{o}|{threads}", spec.to_json(), qe.q.to_json()), n_nan > 0 && truth.len() > k + o);
+    let td = || TopDocs::with_limit(k).and_offset(o);
+    let q = qe.query.as_ref();
+    capture_panic_sites(true);
+    let res = catch_unwind(AssertUnwindSafe(|| -> tantivy::Result<Vec<(f64, DocAddress)>> {
+        Ok(match variant {
+            0 => searcher.search(q, &td().tweak_score(move |rd: &SegmentReader| {
+                let col = rd.fast_fields().u64("id").unwrap();
+                move |doc: DocId, score: Score| nan_key_f32(col.first(doc).unwrap_or(0), m, r, score)
+            }))?.into_iter().map(|(x, a)| (x as f64, a)).collect(),
+            1 => searcher.search(q, &td().order_by((NanKey { m, r }, Order::Desc)))?,
+            _ => searcher.search(q, &td().order_by((NanKey { m, r }, Order::Asc)))?,
+        })
+    }));
+    capture_panic_sites(false);
+    let real = match res {
+        Ok(Ok(v)) => v,
+        Ok(Err(e)) => { ctx.report.violation("oracle", "C06:nan-key-search-error", format!("TopDocs({k}, offset {o}) with NaN keys (variant {variant}, {n_nan} NaN of {}) on {}: error {e}", truth.len(), qe.q.to_json()), case); return }
+        Err(e) => {
+            let msg = e.downcast_ref::<String>().cloned().or_else(|| e.downcast_ref::<&str>().map(|x| x.to_string())).unwrap_or_default();
+            let site = LAST_PANIC_SITE.lock().map(|g| g.clone()).unwrap_or_default();
+            ctx.report.count(&format!("nan-keys:panic-site:{}", site.split(" <- ").next().unwrap_or("")));
+            // signature of the known defect: the sort's total-order check fired AND a NaN key is among the matches
+            let key = if n_nan > 0 && msg.contains("does not correctly implement a total order") { "C06:nan-sort-key-sort-panics" } else { "C06:nan-key-search-panic" };
+            ctx.report.violation("oracle", key, format!("TopDocs({k}, offset {o}) with NaN keys (variant {variant}, {n_nan} NaN of {}) on {} over {} segment(s), {threads} thread(s): the search panicked: {msg:?} at {site}", truth.len(), qe.q.to_json(), searcher.segment_readers().len()), case);
+            return
+        }
+    };
+    // what must hold whatever the order
+    let want_len = k.min(truth.len().saturating_sub(o));
+    let mut seen = std::collections::HashSet::new();
+    let mut what = None;
+    if real.len() != want_len {
+        what = Some(format!("{} entries returned, {} matches, expected {want_len}", real.len(), truth.len()));
+    }
+    for (key, a) in &real {
+        let addr = addr_nat(a);
+        match truth.get(&addr) {
+            None => { what = Some(format!("entry {a:?} is not a match")); break }
+            Some(t) if t.to_bits() != key.to_bits() && !(t.is_nan() && key.is_nan()) => { what = Some(format!("entry {a:?} carries key {key:?}, its key is {t:?}")); break }
+            _ => {}
+        }
+        if !seen.insert(addr) { what = Some(format!("entry {a:?} returned twice")); break }
+    }
+    if let Some(w) = what {
+        ctx.report.violation("oracle", "C06:nan-key-wrong-result", format!("TopDocs({k}, offset {o}) with NaN keys (variant {variant}, {n_nan} NaN of {}) on {} over {} segment(s), {threads} thread(s): {w}", truth.len(), qe.q.to_json(), searcher.segment_readers().len()), case);
+        return;
+    }
+    // REPORTED, not judged: the comparable part of the result
+    if n_nan > 0 && o == 0 {
+        let asc = variant == 2;
+        let better = |a: f64, b: f64| if asc { a < b } else { a > b };
+        let worst_returned = real.iter().map(|(x, _)| *x).filter(|x| !x.is_nan()).fold(None, |w: Option<f64>, x| match w { None => Some(x), Some(y) => Some(if better(y, x) { x } else { y }) });
+        let returned: std::collections::HashSet<u64> = real.iter().map(|(_, a)| addr_nat(a)).collect();
+        let lost = worst_returned.map(|w| truth.iter().filter(|(a, x)| !x.is_nan() && !returned.contains(a) && better(**x, w)).count()).unwrap_or(0);
+        let comparable: Vec<f64> = real.iter().map(|(x, _)| *x).filter(|x| !x.is_nan()).collect();
+        let unsorted = comparable.windows(2).any(|w| better(w[1], w[0]));
+        let nan_returned = real.iter().filter(|(x, _)| x.is_nan()).count();
+        let comparable_total = truth.len() - n_nan;
+        let nan_instead = nan_returned > 0 && comparable_total > comparable.len();
+        if lost > 0 { ctx.report.count("nan-keys:observed:strictly-better-comparable-document-left-out"); }
+        if unsorted { ctx.report.count("nan-keys:observed:comparable-entries-out-of-order"); }
+        if nan_instead { ctx.report.count("nan-keys:observed:nan-entry-returned-while-comparable-documents-left-out"); }
+        if !(lost > 0 || unsorted || nan_instead) { ctx.report.count("nan-keys:observed:comparable-part-as-without-nan"); }
+        if lost > 0 && !ctx.report.notes.iter().any(|n| n.starts_with("NaN keys (outside the model)")) {
+            ctx.report.notes.push(format!("NaN keys (outside the model): TopDocs({k}) variant {variant} on {} ({} matches, {n_nan} NaN): {lost} comparable document(s) strictly better than the worst returned comparable key {worst_returned:?} were left out (a NaN threshold rejects every later document: compare(x, NaN) is never Greater); {nan_returned} NaN entries returned", qe.q.to_json(), truth.len()));
+        }
+    }
+}
+
+/// scores at or below the `Score::MIN` threshold sentinel: `for_each_pruning(Score::MIN, ..)`
+/// offers a document only if `score > threshold`
+fn sentinel_case(ctx: &mut Ctx, spec: &CorpusSpec, built: &Built, searcher: &Searcher, inner: &Q, score_bits: u32, k: usize) {
+    let s = f32::from_bits(score_bits);
+    let case = json!({"kind": "sentinel", "corpus": spec.to_json(), "query": inner.to_json(), "score_bits": score_bits, "k": k, "segment_order": segment_order(searcher)});
+    let query = ConstScoreQuery::new(inner.build(&built.fields), s);
+    let Ok(Ok(hits)) = catch_unwind(AssertUnwindSafe(|| searcher.search(&query, &AllHits))) else { return };
+    let mut all: Vec<u64> = hits.iter().map(|(sg, d, _)| ((*sg as u64) << 32) | *d as u64).collect();
+    all.sort();
+    ctx.report.count(&format!("sentinel:score:{}", if s.is_nan() { "NaN".to_string() } else { format!("{s:e}") }));
+    ctx.report.case(&format!("sentinel|{}|{}|{score_bits}|{k}", spec.to_json(), inner.to_json()), all.len() > k);
+    let res = catch_unwind(AssertUnwindSafe(|| searcher.search(&query, &TopDocs::with_limit(k).order_by_score())));
+    let real = match res {
+        Ok(Ok(v)) => v,
+        _ => { ctx.report.violation("oracle", "C06:search-panic", format!("TopDocs({k}) by score on const-score({s:?}) of {} failed or panicked", inner.to_json()), case); return }
+    };
+    let got: Vec<u64> = real.iter().map(|(_, a)| addr_nat(a)).collect();
+    let expected: Vec<u64> = all.iter().take(k).cloned().collect();
+    let keys_ok = real.iter().all(|(x, _)| x.to_bits() == score_bits);
+    if s.is_nan() {
+        // outside the model; report
+        ctx.report.count(if got.is_empty() && !all.is_empty() { "sentinel:observed:NaN-scores-never-collected" } else { "sentinel:observed:NaN-scores-collected" });
+        return;
+    }
+    if got == expected && keys_ok {
+        return;
+    }
+    // signature of the sentinel defect: nothing is returned, and the (constant) score is not above f32::MIN
+    if got.is_empty() && !all.is_empty() && !(s > f32::MIN) {
+        ctx.report.violation("oracle", "C06:score-not-above-f32-min-never-collected", format!("TopDocs({k}) by score on const-score({s:?}) of {}: {} documents match (all with score {s:?}) but none is returned: `for_each_pruning` starts from the threshold sentinel Score::MIN = {:?} and offers a document only if score > threshold [verified: result empty, score <= f32::MIN]", inner.to_json(), all.len(), f32::MIN), case);
+        return;
+    }
+    ctx.report.violation("oracle", "C06:topk-wrong", format!("TopDocs({k}) by score on const-score({s:?}) of {}: got {:?}…, expected the first {} matches by address {:?}… (keys carried correctly: {keys_ok})", inner.to_json(), &got[..got.len().min(5)], expected.len(), &expected[..expected.len().min(5)]), case);
+}
+
+fn outside_model_run(ctx: &mut Ctx, rng: &mut Rng, corpora: u64) {
+    for c in 0..corpora {
+        let spec = gen_corpus(rng, [0, 6, 3, 2][(c % 4) as usize], false);
+        let built = build(&spec);
+        let ss = searchers(&built);
+        let qs = vec![Q::Term("a".into()), Q::Union(vec!["a".into(), "b".into()]), Q::All, gen_query(rng)];
+        let evals = eval_queries(&built, &ss[0].1, qs);
+        for qe in &evals {
+            let n = qe.hits.len();
+            if n == 0 { continue; }
+            for _ in 0..4 {
+                let variant = rng.below(3);
+                // few NaN (one in m) … mostly NaN
+                let m = [2u64, 3, 7, 50, 1000][rng.usize_below(5)];
+                let r = rng.below(m);
+                let k = match rng.below(5) { 0 => 1, 1 => 3, 2 => 10, 3 => n + 2, _ => 1 + rng.usize_below(n.min(300)) };
+                let o = match rng.below(4) { 0 => rng.usize_below(n + 1), 1 => rng.usize_below(10), _ => 0 };
+                let (threads, searcher) = &ss[if rng.chance(1, 3) { ss.len() - 1 } else { 0 }];
+                nan_case(ctx, &spec, &built, searcher, *threads, qe, variant, m, r, k, o);
+            }
+        }
+        for bits in [f32::MIN.to_bits(), f32::NEG_INFINITY.to_bits(), f32::NAN.to_bits(), (-3.0e38f32).to_bits(), f32::from_bits(f32::MIN.to_bits() - 1).to_bits(), (-1.0f32).to_bits(), 0f32.to_bits()] {
+            let inner = if rng.chance(1, 2) { Q::Term("a".into()) } else { Q::All };
+            sentinel_case(ctx, &spec, &built, &ss[0].1, &inner, bits, [1usize, 5, 100_000][rng.usize_below(3)]);
+        }
+        // negative boosts: scores are negative, `score > Score::MIN` still holds for every document
+        for q in [Q::Boost(Box::new(Q::Term("a".into())), -1.0), Q::Boost(Box::new(Q::Union(vec!["a".into(), "b".into()])), -0.5), Q::Boost(Box::new(Q::Inter(vec!["a".into(), "b".into()])), -2.0)] {
+            let evals = eval_queries(&built, &ss[0].1, vec![q]);
+            for qe in &evals {
+                ctx.report.count("negative-boost");
+                let k = [1usize, 3, 10][rng.usize_below(3)];
+                check_search(ctx, &spec, &built, &ss[0].1, 1, qe, &Kind::Score, k, 0);
+            }
+        }
+    }
+}
+
 fn driver_run(ctx: &mut Ctx, spec: &CorpusSpec, built: &Built, searcher: &Searcher, rng: &mut Rng, n: usize) {
     // multi-clause unions and conjunctions (>= 3 secondaries for the intersection driver)
     for _ in 0..n {
@@ -1596,6 +1901,10 @@ fn driver_run(ctx: &mut Ctx, spec: &CorpusSpec, built: &Built, searcher: &Search
         // thresholds near the top of the score distribution (where pruning is active)
         let th = match rng.below(4) { 0 => sorted[sorted.len() / 2], 1 => sorted[sorted.len() / 10], 2 => sorted[(sorted.len() / 100).min(sorted.len() - 1)], _ => sorted[rng.usize_below(sorted.len().min(20))] };
         driver_case_multi(ctx, spec, built, searcher, &q, th);
+        // the same queries with threshold-raising callbacks, against the mirrored loops (bit for bit)
+        let policy = match rng.below(4) { 0 => Policy::Const(th.to_bits()), 1 => Policy::Staircase, _ => Policy::KthBest(1 + rng.usize_below(30)) };
+        let initial = match (&policy, rng.below(3)) { (Policy::Const(b), _) => f32::from_bits(*b), (_, 0) => th * 0.5, _ => f32::MIN };
+        driver_case(ctx, spec, built, searcher, &q, &policy, initial);
     }
     for _ in 0..n {
         // one or two scoring clauses: the scores are bit-identical on both paths (IEEE addition commutes)
@@ -1603,7 +1912,7 @@ fn driver_run(ctx: &mut Ctx, spec: &CorpusSpec, built: &Built, searcher: &Search
         rng.shuffle(&mut ts);
         let q = match rng.below(6) {
             0 | 1 => Q::Term(ts[0].clone()),
-            2 => Q::Union(ts[..2].to_vec()),
+            2 => Q::Union(ts[..2 + rng.usize_below(3)].to_vec()),
             3 => Q::Inter(ts[..2].to_vec()),
             4 => Q::Term(["n:a", "n:b", "t:a"][rng.usize_below(3)].to_string()),
             // mixed fields (both with freqs): different fieldnorm readers and weights in one WAND
@@ -1627,7 +1936,6 @@ fn driver_run(ctx: &mut Ctx, spec: &CorpusSpec, built: &Built, searcher: &Search
             if !sample.is_empty() {
                 driver_case_multi(ctx, spec, built, searcher, &q, pick(rng));
             }
-            continue;
         }
         let policy = match rng.below(5) { 0 => Policy::Const(pick(rng).to_bits()), 1 => Policy::Staircase, _ => Policy::KthBest(1 + rng.usize_below(30)) };
         let initial = match (&policy, rng.below(3)) { (Policy::Const(b), _) => f32::from_bits(*b), (_, 0) => pick(rng), _ => f32::MIN };
@@ -1746,12 +2054,27 @@ pub fn replay(ctx: &mut Ctx, case: &Value) {
             let ss = searchers(&built);
             if case["kind"] == "driver-multi" {
                 driver_case_multi(ctx, &spec, &built, &ss[0].1, &q, f32::from_bits(case["threshold_bits"].as_u64().unwrap_or(0) as u32));
-            } else if let Q::Inter(_) = &q {
-                driver_case_multi(ctx, &spec, &built, &ss[0].1, &q, f32::from_bits(case["initial_bits"].as_u64().unwrap_or(0) as u32));
             } else {
                 let pol = case["policy"].as_str().unwrap_or("");
                 let policy = if pol.starts_with("Staircase") { Policy::Staircase } else if let Some(k) = pol.strip_prefix("KthBest(").and_then(|x| x.strip_suffix(')')).and_then(|x| x.parse().ok()) { Policy::KthBest(k) } else if let Some(b) = pol.strip_prefix("Const(").and_then(|x| x.strip_suffix(')')).and_then(|x| x.parse().ok()) { Policy::Const(b) } else { Policy::Staircase };
                 driver_case(ctx, &spec, &built, &ss[0].1, &q, &policy, f32::from_bits(case["initial_bits"].as_u64().unwrap_or(0) as u32));
+            }
+        }
+        "nan" | "sentinel" => {
+            let (Some(spec), Some(q)) = (CorpusSpec::from_json(&case["corpus"]), Q::from_json(&case["query"])) else { return };
+            let want: Option<Vec<u64>> = case["segment_order"].as_array().map(|a| a.iter().filter_map(|x| x.as_u64()).collect());
+            let (built, _) = build_with_order(&spec, want.as_ref());
+            let ss = searchers(&built);
+            let u = |k: &str| case[k].as_u64().unwrap_or(0);
+            if case["kind"] == "sentinel" {
+                sentinel_case(ctx, &spec, &built, &ss[0].1, &q, u("score_bits") as u32, u("k") as usize);
+            } else {
+                let threads = u("threads").max(1) as usize;
+                let (t, searcher) = ss.iter().find(|(t, _)| *t == threads).unwrap_or(&ss[0]);
+                let evals = eval_queries(&built, searcher, vec![q]);
+                if let Some(qe) = evals.first() {
+                    nan_case(ctx, &spec, &built, searcher, *t, qe, u("variant"), u("m").max(1), u("r"), u("k") as usize, u("offset") as usize);
+                }
             }
         }
         "known-corpus" => known_corpora(ctx),
@@ -1761,7 +2084,9 @@ pub fn replay(ctx: &mut Ctx, case: &Value) {
 
 pub fn run(ctx: &mut Ctx) {
     ctx.report.rule = "part A: TopNComputer push sequences, non-trivial = more pushes than the buffer capacity 2·max(K,1) and at least one key tie; \
-        part B: (corpus, query, collector, K, offset, executor) tuples, non-trivial = more matches than K+offset (so that something is cut off); paging runs non-trivial = more than one page".into();
+        part B: (corpus, query, collector, K, offset, executor) tuples, non-trivial = more matches than K+offset (so that something is cut off); paging runs non-trivial = more than one page; \
+        part C: (corpus, query, callback policy, initial threshold, segment) driver runs, non-trivial = more than 128 matching documents of which at least one is not offered; \
+        part D: NaN-key / sentinel-score searches, non-trivial = at least one NaN key among more matches than K+offset (resp. more matches than K)".into();
     ctx.report.correspondence_obligations = vec![
         "TopNComputer::into_sorted_vec = model intoSortedVec (two select_nth behaviours) = sort-and-truncate".into(),
         "TopNComputer::threshold after every push = model threshold".into(),
@@ -1769,7 +2094,9 @@ pub fn run(ctx: &mut Ctx) {
         "paging over successive offsets enumerates every match exactly once".into(),
         "block_wand_single_scorer's callback sequence = Model/Wand.lean::wandSingle on the term's real blocks and bounds".into(),
         "Weight::for_each_pruning (block_wand_single_scorer / block_wand / block_wand_intersection) under constant, staircase and K-th-best callback policies = the exhaustive loop with the same callback (1-2 clause queries, bit-exact)".into(),
+        "Weight::for_each_pruning on 2-5 term unions / conjunctions = Model/BlockWand.lean::blockWand / blockWandInter run in Float32 on the terms' real postings, blocks and bounds (offered documents, score bits, final threshold; three callback policies), also where UB_max / UB_block fail".into(),
         "known bound failures (UB_max, UB_block) recomputed through the public postings API before attribution".into(),
+        "keys outside the model (NaN sort keys, scores not above Score::MIN): no panic, result size, no duplicates, true keys; attribution of the two known findings by their verified signatures".into(),
     ];
     if let Some(case) = ctx.replay.clone() {
         replay(ctx, &case);
@@ -1801,5 +2128,12 @@ pub fn run(ctx: &mut Ctx) {
         if c < 2 {
             ctx.report.sample(json!({"part": "B", "corpus": spec.to_json(), "example": "each query: exhaustive (doc, score) list once, then TopDocs by several collectors / K / offsets / executors + a paging run"}));
         }
+    }
+    {
+        let mut r3 = ctx.rng.fork();
+        let n = ctx.budget(6, 40);
+        let t0 = std::time::Instant::now();
+        outside_model_run(ctx, &mut r3, n);
+        ctx.report.count_n("millis:outside-model", t0.elapsed().as_millis() as u64);
     }
 }
